@@ -236,6 +236,10 @@ func c11Neighbourhood(chk *fw.Check) (evals, nontrivial int, samples []string) {
 		mkCA("verif issuing CA_57", 6, 73),
 		mkCA("Verif Issuing CA", 6, 74),
 		world.Issue(p.Root, world.CertOpt{Subject: &pkix.Name{CommonName: "verif issuing CA", Organization: []string{"verif"}, OrganizationalUnit: []string{"x"}}, IsCA: true, KeyKind: "ec", KeyIdx: 6, Serial: big.NewInt(75)}),
+		// names which differ from A's only in attribute order / by a repeated CN: distinct encoded names which a lossy
+		// rendering (pkix.Name) maps onto A's
+		world.Issue(p.Root, world.CertOpt{CN: "reordered", RawSubject: world.RawDN("CN", "verif issuing CA", "O", "verif"), IsCA: true, KeyKind: "ec", KeyIdx: 6, Serial: big.NewInt(76)}),
+		world.Issue(p.Root, world.CertOpt{CN: "repeated-cn", RawSubject: world.RawDN("O", "verif", "CN", "backup", "CN", "verif issuing CA"), IsCA: true, KeyKind: "ec", KeyIdx: 6, Serial: big.NewInt(77)}),
 	}
 	two64 := new(big.Int).Lsh(big.NewInt(1), 64)
 	listed := []*big.Int{big.NewInt(5), big.NewInt(57), big.NewInt(300), new(big.Int).Add(two64, big.NewInt(5)), new(big.Int).Lsh(big.NewInt(0x7f), 152), big.NewInt(7)}
